@@ -373,7 +373,7 @@ class Prover:
                 return util.numnorm(x[1][1][2][0])
             return None
 
-        for d, v in self.facts(bb):
+        def one(d, v, depth=0):
             d = util.map_term(util.numnorm(d), ok_payload)
             truth = None
             if v[0] == "is":
@@ -381,10 +381,33 @@ class Prover:
             elif v[0] == "not" and v[1] == (0,):
                 truth = True
             if truth is None:
-                continue
+                return
             while d[0] == "unop" and d[1] == "Not":
                 truth = not truth
                 d = d[2]
+            if d[0] == "discr" and util.is_call(d[1], "std::option::Option::<T>::filter") and len(d[1][2]) == 2 and v == ("is", 1) and depth < 3:
+                # opt.filter(pred) is Some exactly when opt is Some(p) and pred(&p) holds.  With
+                # opt = uN::try_from(e).ok(): e fits uN and p is e as a number; pred is read off the
+                # body of the (capture-free, loop-free) closure with its parameter standing for p
+                X, cl = strip(d[1][2][0]), d[1][2][1]
+                p_ = None
+                if util.is_call(X, "std::result::Result::<T, E>::ok") and len(X[2]) == 1:
+                    tf = strip(X[2][0])
+                    if util.is_call(tf) and "TryFrom<" in tf[1] and tf[1].endswith("::try_from") and " for " in tf[1] and len(tf[2]) == 1:
+                        tr_ = TYPE_RANGE.get(tf[1].split(" for ")[-1].split(">")[0])
+                        if tr_ is not None:
+                            p_ = util.numnorm(tf[2][0])
+                            res.append(("Le", p_, ("int", tr_[1], "usize")))
+                            res.append(("Ge", p_, ("int", tr_[0], "usize")))
+                if p_ is not None and cl[0] == "agg" and cl[1] == "closure" and not cl[4]:
+                    cse = self.ctx.flat.run(cl[2])
+                    if cse is not None and not cfg.back_edges(cse.body):
+                        def sub(t_):
+                            if t_ in (("param", 2), ("deref", ("param", 2)), ("refv", ("deref", ("param", 2)))):
+                                return p_
+                            return None
+                        one(util.map_term(util.numnorm(cse.ret), sub), ("is", 1), depth + 1)
+                return
             if d[0] == "discr" and util.is_call(d[1]) and "TryFrom<" in d[1][1] and d[1][1].endswith("::try_from") and " for " in d[1][1] and v[0] == "is" and v[1] == 0:
                 # uN::try_from(x) is Ok exactly when x fits uN
                 tgt = d[1][1].split(" for ")[-1].split(">")[0]
@@ -393,11 +416,11 @@ class Prover:
                     x_ = util.numnorm(d[1][2][0])
                     res.append(("Le", x_, ("int", tr_[1], "usize")))
                     res.append(("Ge", x_, ("int", tr_[0], "usize")))
-                continue
+                return
             if d[0] == "discr" and util.is_call(d[1]) and d[1][1].endswith("<impl [T]>::get") and len(d[1][2]) == 2 and strip(d[1][2][1])[0] != "agg" and v[0] == "is" and v[1] in (0, 1):
                 # s.get(i) is Some exactly when i < s.len()
                 res.append(("Lt" if v[1] == 1 else "Ge", util.numnorm(d[1][2][1]), ("len", util.numnorm(d[1][2][0]))))
-                continue
+                return
             if d[0] == "binop" and d[1] in ("Lt", "Le", "Gt", "Ge", "Eq", "Ne"):
                 op = d[1]
                 if not truth:
@@ -426,6 +449,8 @@ class Prover:
                     x_ = util.numnorm(d[2][1])
                     res.append(("Ge", x_, util.numnorm(lo_)))
                     res.append((op_, x_, util.numnorm(hi_)))
+        for d0, v0 in self.facts(bb):
+            one(d0, v0)
         # a switch on an integer value itself (`match n { 0 => .., _ => .. }`)
         for d, v in self.facts(bb):
             d = util.map_term(util.numnorm(d), ok_payload)
